@@ -1251,6 +1251,12 @@ class H2Stream:
                 headers, hdr_validation_flags
             )
 
+        # The steps above are lazy generators that raise when they meet an
+        # invalid header. Run them to completion before the encoder sees
+        # anything: encoding changes the compression context irreversibly, so
+        # a header block we refuse must never be partially encoded.
+        headers = list(headers)
+
         encoded_headers = encoder.encode(headers)
 
         # Slice into blocks of max_outbound_frame_size. Be careful with this:
